@@ -1397,4 +1397,217 @@ Proof.
       * eapply psteps_cinv; [exact PS | exact (sm_cinv _ _ _ S)].
 Qed.
 
+
+(* ---------------------------------------------------------------- one round *)
+Definition hac (st : mst) (p : list Z) : Prop :=
+  forall p0 run p1 p3, scan_blank_full (ms_o st) p = POk p0 -> take_run (ms_o st) p0 = (run, p1) ->
+       scan_blank_full (ms_o st) p1 = POk (40 :: p3) ->
+       (is_nil p3 || negb (hd_is p3 63) || nth_is 1 p3 41) = true -> (useN (ms_o st) || ms_ign st) = false ->
+       zmem (ms_autocap st) caps = true.
+
+Lemma add_run_ctl st run isq st1 : add_run st run isq = POk st1 -> ctl st1 = ctl st.
+Proof.
+  intros E. destruct (add_run_fields simple_fold participates cat_in st run isq st1 E) as [F1 [F2 [F3 [F4 _]]]].
+  unfold ctl. rewrite F1, F2, F3, F4. reflexivity.
+Qed.
+
+
+Lemma sim_round cs st p wasq st' nxt :
+  minv st -> ms_unit st = None -> Sim cs st p ->
+  scan_round tbm mco st p wasq = POk (st', nxt) ->
+  (exists q, nxt = Some (q, false) /\ hd_is q 63 = true /\ ms_unit st' = None) \/
+  (hac st p /\ match nxt with Some (q, _) => exists cs', Sim cs' st' q | None => True end).
+Proof.
+  intros Iv Hu SM E. unfold Parser.scan_round in E.
+  destruct (scan_blank_full (ms_o st) p) as [p0|e q| | |] eqn:E0; cbn [pbind] in E; try discriminate.
+  destruct (take_run (ms_o st) p0) as [run p1] eqn:Er.
+  destruct (scan_blank_full (ms_o st) p1) as [p2|e q| | |] eqn:E1; cbn [pbind] in E; try discriminate.
+  destruct (round_head cs st p p0 run p1 p2 SM E0 Er E1) as [R2 IGN].
+  (* the hypothesis on the number of a plain "(" speaks of this round's "(" only *)
+  assert (HAC0 : forall ch p3, p2 = ch :: p3 -> (ch =? 40) = false -> hac st p).
+  { intros ch p3 -> C. intros p0' run' p1' p3' H0 Hr H1 _ _. rewrite E0 in H0. inversion H0; subst p0'.
+    rewrite Er in Hr. inversion Hr; subst. rewrite E1 in H1. inversion H1; subst. discriminate. }
+  destruct p2 as [|ch p3].
+  { right. split.
+    - intros p0' run' p1' p3' H0 Hr H1 _ _. rewrite E0 in H0. inversion H0; subst p0'. rewrite Er in Hr. inversion Hr; subst. rewrite E1 in H1. discriminate.
+    - destruct (add_run st run false) as [st1| | | |]; cbn [pbind] in E; try discriminate. inversion E; subst. exact I. }
+  (* with ignoreNextParen set the round starts at its "(" *)
+  assert (IG40 : ms_ign st = true -> ch = 40).
+  { intros H. destruct (IGN H) as [EP _]. destruct (sm_cond _ _ _ SM H) as [H40 _]. rewrite <- EP in H40. cbn [hd_is] in H40. lia. }
+  destruct (negb (is_special ch)) eqn:Esp.
+  { right. assert (I : ms_ign st = false).
+    { destruct (ms_ign st) eqn:Ig; [|reflexivity]. rewrite (IG40 eq_refl) in Esp. discriminate. }
+    split; [apply (HAC0 ch p3 eq_refl); destruct (ch =? 40) eqn:C; [assert (ch = 40) by lia; subst ch; discriminate | reflexivity]|].
+    destruct (add_run st run false) as [st1| | | |] eqn:Ea; cbn [pbind] in E; try discriminate. inversion E; subst.
+    exists cs. eapply Sim_at; [exact SM | eapply add_run_ctl; exact Ea | exact I | exact R2]. }
+  destruct (add_run st run (is_quantifier ch)) as [st1| | | |] eqn:Ea; cbn [pbind] in E; try discriminate.
+  pose proof (add_run_ctl _ _ _ _ Ea) as C1.
+  pose proof (add_run_ok is_word_char to_lower simple_fold participates cat_in cat_name st run (is_quantifier ch) (proj1 Iv) Hu) as A. rewrite Ea in A.
+  destruct A as [A1 [A2 [A3 A4]]].
+  assert (NQ : is_quantifier ch = false -> ms_unit st1 = None).
+  { intros Hq. destruct (ms_unit st1); [|reflexivity]. destruct (A3 ltac:(discriminate)) as [_ F]. congruence. }
+  pose proof (sm_o _ _ _ SM) as So. pose proof (sm_E _ _ _ SM) as SE.
+  (* a unit scanned under the current options, then its quantifier *)
+  assert (UNIT : forall x q, (ch =? 40) = false -> reach cs q ->
+            (pdo r <- after_unit (set_unit st1 (Some x)) q ; let '(st', q', wq) := r in POk (st', Some (q', wq))) = POk (st', nxt) ->
+            (exists q0, nxt = Some (q0, false) /\ hd_is q0 63 = true /\ ms_unit st' = None) \/
+            (hac st p /\ match nxt with Some (q0, _) => exists cs', Sim cs' st' q0 | None => True end)).
+  { intros x q C40 Rq EU. right. split; [apply (HAC0 ch p3 eq_refl C40)|].
+    destruct (after_unit (set_unit st1 (Some x)) q) as [[[st5 q5] wq]|e q0| | |] eqn:EA; cbn [pbind] in EU; try discriminate.
+    inversion EU; subst. exists cs.
+    assert (I : ms_ign st = false) by (destruct (ms_ign st) eqn:Ig; [rewrite (IG40 eq_refl) in C40; discriminate | reflexivity]).
+    eapply (sim_after cs st p (set_unit st1 (Some x)) q st' q5 wq SM I); [| unfold set_unit; cbn [ms_unit]; discriminate | exact Rq | exact EA].
+    unfold ctl, set_unit. cbn [ms_o ms_os ms_ign ms_autocap]. exact C1. }
+  destruct (ch =? 91) eqn:K1.
+  { assert (ch = 91) by lia. subst ch.
+    destruct (Parser.cs_scan is_word_char cat_name (S (length p3)) false (ms_o st) p3) as [[syn q]|e q| | |] eqn:ECS; cbn [pbind] in E; try discriminate.
+    destruct (Parser.class_node to_lower simple_fold cat_in (ms_o st) syn) as [x| | | |]; cbn [pbind] in E; try discriminate.
+    apply (UNIT x q eq_refl); [|exact E].
+    destruct (cs_scan_agr (S (length p3)) (ms_o st) (cs_o cs) p3 syn q So SE ECS) as [syn' ES].
+    apply reach_cons in R2. destruct R2 as [st'' [qq [EST RR]]].
+    unfold Parser.prescan_step in EST. cbn [Z.eqb Pos.eqb] in EST. rewrite ES in EST. cbn [ignore_err pbind] in EST. inversion EST; subst. exact RR. }
+  destruct (ch =? 40) eqn:K2.
+  { assert (ch = 40) by lia. subst ch.
+    assert (Q : starts_qhash p3 = false).
+    { unfold scan_blank_full in E1. destruct (blank_head_full _ _ _ _ _ E1) as [_ [_ H3]]. cbn [Z.eqb Pos.eqb andb] in H3. exact H3. }
+    destruct (sim_open cs st p st1 p3 st' nxt SM C1 (NQ eq_refl) R2 Q E) as [[D1 [D2 D3]] | [HA [q [wq [cs' [-> SM']]]]]].
+    - left. exists p3. auto.
+    - right. split; [|exists cs'; exact SM'].
+      intros p0' run' p1' p3' H0 Hr H1 HP HN. rewrite E0 in H0. inversion H0; subst p0'. rewrite Er in Hr. inversion Hr; subst.
+      rewrite E1 in H1. inversion H1; subst. apply HA; assumption. }
+  assert (I : ms_ign st = false) by (destruct (ms_ign st) eqn:Ig; [rewrite (IG40 eq_refl) in K2; discriminate | reflexivity]).
+  destruct (ch =? 124) eqn:K3.
+  { right. split; [apply (HAC0 ch p3 eq_refl K2)|].
+    destruct (add_alternate st1) as [st2|e q| | |] eqn:E2; cbn [pbind] in E; try discriminate. inversion E; subst.
+    exists cs. eapply Sim_at; [exact SM | rewrite (add_alternate_ctl _ _ E2); exact C1 | exact I|].
+    apply (reach_tskip cs (ch :: p3) p3); [apply tskip_cons; apply ptriv_intro; intros; lia | exact R2]. }
+  destruct (ch =? 41) eqn:K4.
+  { right. split; [apply (HAC0 ch p3 eq_refl K2)|]. assert (ch = 41) by lia. subst ch.
+    destruct (sim_close cs st p st1 p3 st' nxt SM I C1 R2 E) as [q [wq [cs' [-> SM']]]]. exists cs'. exact SM'. }
+  destruct (ch =? 92) eqn:K5.
+  { assert (ch = 92) by lia. subst ch.
+    destruct (Parser.scan_backslash_full is_word_char to_lower simple_fold cat_in cat_name false tbm (ms_o st) p3) as [[b0 q']|e q| | |] eqn:EB; cbn [pbind] in E; try discriminate.
+    destruct b0 as [x|]; [|discriminate].
+    apply (UNIT x q' eq_refl); [|exact E].
+    destruct (scan_backslash_full_bsagr tbm (captab_pre (cs_c cs)) (ms_o st) (cs_o cs) So SE (useX (cs_o cs)) p3 (BNode x) q' EB) as [q [EI T]].
+    apply (reach_tskip cs q' q T).
+    apply reach_cons in R2. destruct R2 as [st'' [qq [EST RR]]].
+    unfold Parser.prescan_step in EST. cbn [Z.eqb Pos.eqb] in EST.
+    destruct p3 as [|c p4]; [cbn in EB; discriminate|]. rewrite EI in EST. cbn [pbind] in EST. inversion EST; subst. exact RR. }
+  destruct ((ch =? 94) || (ch =? 36) || (ch =? 46)) eqn:K6.
+  { destruct (Parser.simple_unit simple_fold cat_in (ms_o st) ch) as [x| | | |]; cbn [pbind] in E; try discriminate.
+    apply (UNIT x p3 eq_refl); [|exact E].
+    apply (reach_tskip cs (ch :: p3) p3); [apply tskip_cons; apply ptriv_intro; intros; lia | exact R2]. }
+  destruct ((ch =? 123) || (ch =? 42) || (ch =? 43) || (ch =? 63)) eqn:K7; [|discriminate].
+  destruct (ms_unit st1) as [u|] eqn:Eu; [|discriminate].
+  right. split; [apply (HAC0 ch p3 eq_refl K2)|].
+  destruct (after_unit st1 (ch :: p3)) as [[[st2 q2] wq]|e q0| | |] eqn:EA; cbn [pbind] in E; try discriminate.
+  inversion E; subst. exists cs.
+  eapply (sim_after cs st p st1 (ch :: p3) st' q2 wq SM I C1); [rewrite Eu; discriminate | exact R2 | exact EA].
+Qed.
+
+
+(* ---------------------------------------------------------------- the loop *)
+Hypothesis Hslot : forall k, ct_slot tbm k = true -> zmem k caps = true.
+Hypothesis Hname : forall s g, ct_name tbm s = Some g -> zmem g caps = true.
+
+(* after "(?)" the next round meets the quantifier "?" with nothing to repeat *)
+Lemma doomed_round st q wasq st' nxt : hd_is q 63 = true -> ms_unit st = None ->
+  scan_round tbm mco st q wasq = POk (st', nxt) -> False.
+Proof.
+  intros H63 Hu E. destruct q as [|c r]; [discriminate|]. cbn [hd_is] in H63. assert (c = 63) by lia. subst c.
+  unfold Parser.scan_round in E.
+  assert (B : scan_blank_full (ms_o st) (63 :: r) = POk (63 :: r)).
+  { unfold scan_blank_full. cbn [blank]. change (is_space 63) with false. rewrite andb_false_r. cbn [Z.eqb Pos.eqb]. rewrite andb_false_r. reflexivity. }
+  rewrite B in E. cbn [pbind] in E.
+  assert (T : take_run (ms_o st) (63 :: r) = ([], 63 :: r)).
+  { cbn [take_run]. assert (SS : is_stopper (ms_o st) 63 = true) by (unfold is_stopper; destruct (useX (ms_o st)); reflexivity).
+    rewrite SS. reflexivity. }
+  rewrite T, B in E. cbn [pbind] in E.
+  change (is_special 63) with true in E. cbn [negb] in E.
+  unfold Parser.add_run in E. cbn [pbind] in E. cbn [Z.eqb Pos.eqb orb] in E. rewrite Hu in E. discriminate.
+Qed.
+
+Lemma sim_loop fuel : forall st p wasq stF, minv st -> oinv caps st -> ms_unit st = None -> (exists cs, Sim cs st p) ->
+  scan_loop_full fuel tbm mco st p wasq = POk stF -> minv stF /\ oinv caps stF.
+Proof.
+  induction fuel as [|f IH]; intros st p wasq stF Iv Ho Hu [cs SM] E; [discriminate|].
+  cbn [Parser.scan_loop_full] in E. destruct p as [|c p']; [inversion E; subst; auto|].
+  destruct (scan_round tbm mco st (c :: p') wasq) as [[st' nxt]|e q| | |] eqn:ER; cbn [pbind] in E; try discriminate.
+  pose proof (scan_round_ok is_word_char to_lower simple_fold participates cat_in cat_name tbm mco st (c :: p') wasq Iv Hu ltac:(discriminate)) as RR.
+  rewrite ER in RR.
+  destruct (sim_round cs st (c :: p') wasq st' nxt Iv Hu SM ER) as [[q [-> [H63 U']]] | [HA NX]].
+  - exfalso. destruct f as [|f']; [discriminate|]. cbn [Parser.scan_loop_full] in E.
+    destruct q as [|c0 q']; [discriminate|].
+    destruct (scan_round tbm mco st' (c0 :: q') false) as [[st2 nxt2]|e q2| | |] eqn:ER2; cbn [pbind] in E; try discriminate.
+    exact (doomed_round st' (c0 :: q') false st2 nxt2 H63 U' ER2).
+  - pose proof (scan_round_o caps tbm Hslot Hname is_word_char to_lower simple_fold participates cat_in cat_name mco st (c :: p') wasq st' nxt Iv Ho Hu HA ER) as Ho'.
+    destruct nxt as [[q wq]|].
+    + cbn [round_res] in RR. destruct RR as [R1 [R2 _]]. eapply IH; [exact R1 | exact Ho' | exact R2 | exact NX | exact E].
+    + inversion E; subst. cbn [round_res] in RR. auto.
+Qed.
+
 End Agree.
+
+(* ---------------------------------------------------------------- syntax.Parse builds well-formed trees *)
+Section Final.
+Variable is_word_char : Z -> bool.
+Variable to_lower : Z -> Z.
+Variable simple_fold : Z -> Z.
+Variable participates : Z -> bool.
+Variable cat_in : Z -> Z -> bool.
+Variable cat_name : list Z -> Z.
+Hypothesis HW : forall c, is_word_char c = true -> negb (zmem c [33; 35; 39; 40; 41; 45; 60; 61; 62; 63; 91; 92]) = true.
+Hypothesis HD : forall c, (49 <=? c) && (c <=? 57) = true -> is_word_char c = true.
+
+Local Notation parse := (parse is_word_char to_lower simple_fold participates cat_in cat_name).
+
+(* Not ECMAScript; Captop below MaxInt32 (no group numbered 2^31-1, fewer than 2^31-1 groups). *)
+Theorem parse_tree_wf o mco_flag p t caps captop :
+  useE o = false -> captop < maxint32 ->
+  parse o mco_flag p = Ok (PR_Tree t caps captop) ->
+  wf caps t.
+Proof.
+  intros HE HT E. unfold Parser.parse in E.
+  destruct (negb pl_bounds_ok); [discriminate|].
+  destruct (negb (forallb (fun c => 0 <=? c) p)); [discriminate|].
+  set (mco := mco_flag || useE o || useRE2 o) in *.
+  destruct (count_captures is_word_char to_lower simple_fold cat_in cat_name mco o p) as [tb|e q| | |] eqn:EC; cbn [pbind] in E; try discriminate.
+  destruct (scan_regex is_word_char to_lower simple_fold participates cat_in cat_name (captab_main tb) mco o p) as [t0|e q| | |] eqn:ES;
+    cbn [pbind] in E; try discriminate.
+  inversion E; subst t0 caps captop. clear E.
+  destruct (count_captures_table is_word_char to_lower simple_fold participates cat_in cat_name mco o p tb EC)
+    as [TK [stF [EL [IN [CW NM]]]]].
+  pose proof TK as [TS TZ TN TB TL TV].
+  (* what the main pass reads from the table *)
+  assert (Hslot : forall k, ct_slot (captab_main tb) k = true -> zmem k (t_caps tb) = true) by (intros k H; exact H).
+  assert (Hname : forall s g, ct_name (captab_main tb) s = Some g -> zmem g (t_caps tb) = true).
+  { intros s g H. cbn [captab_main ct_name] in H. destruct (is_name tb s) eqn:EN; [|discriminate]. inversion H; subst g.
+    specialize (TV HT). unfold vals_ok in TV. unfold is_name, slot_from_name in *.
+    destruct (t_capnames tb) as [m|]; [|discriminate]. apply amem_aget in EN. destruct EN as [v Ev].
+    rewrite (aget0_some _ _ _ Ev). apply zmem_In. eapply TV. exact Ev. }
+  assert (HF2 : mco = true -> forall s v, aget s (names_of (cs_c stF)) = Some v -> ct_name (captab_main tb) s = Some v).
+  { intros Em s v Hs. destruct (NM Em s v Hs) as [m [E1 E2]]. cbn [captab_main ct_name]. unfold is_name, slot_from_name. rewrite E1.
+    assert (A : amem s m = true) by (apply amem_aget; exists v; exact E2). rewrite A, (aget0_some _ _ _ E2). reflexivity. }
+  unfold Parser.scan_regex in ES.
+  set (st0 := mkMS [] (mk_node_mn T_Capture o 0 (-1)) (mk_node T_Alternate o) (mk_node T_Concatenate o) None o [] false 1) in *.
+  destruct (scan_loop_full is_word_char to_lower simple_fold participates cat_in cat_name (S (length p)) (captab_main tb) mco st0 p false)
+    as [st| | | |] eqn:ELP; cbn [pbind] in ES; try discriminate.
+  assert (I0 : minv st0).
+  { split; [|reflexivity]. constructor; cbn; auto; (split; [constructor | reflexivity]). }
+  assert (O0 : oinv (t_caps tb) st0) by (apply oinv_init; apply zmem_In; exact TZ).
+  assert (S0 : exists cs, Sim is_word_char to_lower simple_fold cat_in cat_name mco stF cs st0 p).
+  { exists (mkCS c_init o [] false). constructor; cbn; auto.
+    - apply oeqv_refl.
+    - intros H; discriminate.
+    - apply cinv_init.
+    - exists (S (length p)). exact EL. }
+  destruct (sim_loop is_word_char to_lower simple_fold participates cat_in cat_name HW HD mco stF tb HF2 (t_caps tb) IN Hslot Hname
+              (S (length p)) st0 p false st I0 O0 eq_refl S0 ELP) as [IvF OF].
+  destruct (ms_stack st); [|discriminate].
+  destruct (add_group cat_in st) as [st'| | | |] eqn:EG; cbn [pbind] in ES; try discriminate.
+  destruct (ms_unit st') as [u|] eqn:EU; [|discriminate]. inversion ES; subst u.
+  exact (scan_end_o (t_caps tb) (captab_main tb) Hslot Hname is_word_char to_lower simple_fold participates cat_in cat_name st st' t (proj1 IvF) OF EG EU).
+Qed.
+
+End Final.
